@@ -82,7 +82,7 @@ class Post(Base):
     rating = sa.Column(sa.Integer, nullable=False)
     author_id = sa.Column(sa.ForeignKey("author.id"))
     author = relationship("Author", back_populates="posts")
-    home_id = sa.Column(sa.ForeignKey("country.id"))
+    home_id = sa.Column(sa.ForeignKey("country.id"), nullable=False)
     home = relationship("Country")
     comments = relationship("Comment", back_populates="post")
     tags = relationship("Tag", secondary=post_tags, back_populates="posts")
@@ -98,6 +98,14 @@ class Comment(Base):
     post = relationship("Post", back_populates="comments")
     author = relationship("Author", back_populates="comments")
 
+
+# schema decorations a translation might consult: partial / plain / unique indexes
+sa.Index("ix_t_s_when_a_positive", T.s, sqlite_where=T.a > 0, postgresql_where=T.a > 0)
+sa.Index("ix_t_u_when_flag", T.u, sqlite_where=T.flag.is_(True), postgresql_where=T.flag.is_(True))
+sa.Index("ix_t_b", T.b)
+sa.Index("ix_post_title_when_rated", Post.title, sqlite_where=Post.rating > 0,
+         postgresql_where=Post.rating > 0)
+sa.Index("ix_author_name", Author.name)
 
 _engine = None
 DRV_LOG = []
